@@ -293,4 +293,95 @@ mod verif_slices {
         let mb = &m as *const _ as usize;
         assert!(&m.ptr as *const _ as usize - mb == 0 && &m.len as *const _ as usize - mb == w);
     }
+
+    // ------------------------------------------------------------------ all lengths
+    // The conversion functions are loop-free and never read an element, so with a symbolic-size zeroed allocation
+    // (CBMC models malloc/calloc of symbolic size) the harness covers every length the allocator model admits.
+    const MAX_BYTES: usize = 1 << 40;
+
+    fn anylen_borrowed<T: Copy + PartialEq + Default>() {
+        let len: usize = kani::any();
+        kani::assume(len <= MAX_BYTES / core::mem::size_of::<T>());
+        let v: Vec<T> = alloc::vec![T::default(); len];
+        let s: &[T] = &v[..];
+        let view: DiplomatSlice<T> = s.into();
+        assert!(view.ptr == s.as_ptr() && view.len == len);
+        let d: &[T] = &*view;
+        assert!(d.as_ptr() == s.as_ptr() && d.len() == len);
+        let back: &[T] = view.into();
+        assert!(back.as_ptr() == s.as_ptr() && back.len() == len);
+        let i: usize = kani::any();
+        if i < len {
+            assert!(back[i] == s[i]);
+        }
+        kani::cover!(len == 0);
+        kani::cover!(len > 1_000_000);
+    }
+    #[kani::proof]
+    #[kani::unwind(2)]
+    fn slice_roundtrip_anylen_u8() { anylen_borrowed::<u8>(); }
+    #[kani::proof]
+    #[kani::unwind(2)]
+    fn slice_roundtrip_anylen_u16() { anylen_borrowed::<u16>(); }
+    #[kani::proof]
+    #[kani::unwind(2)]
+    fn slice_roundtrip_anylen_u64() { anylen_borrowed::<u64>(); }
+
+    fn anylen_mut<T: Copy + PartialEq + Default + kani::Arbitrary>() {
+        let len: usize = kani::any();
+        kani::assume(len <= MAX_BYTES / core::mem::size_of::<T>());
+        let mut v: Vec<T> = alloc::vec![T::default(); len];
+        let p0 = v.as_mut_ptr();
+        let x: T = kani::any();
+        let i: usize = kani::any();
+        {
+            let s: &mut [T] = &mut v[..];
+            let mut view: DiplomatSliceMut<T> = s.into();
+            assert!(view.ptr == p0 && view.len == len);
+            assert!((&*view).as_ptr() == p0 as *const T && (&*view).len() == len);
+            assert!((&mut *view).as_mut_ptr() == p0 && (&mut *view).len() == len);
+            let back: &mut [T] = view.into();
+            assert!(back.as_mut_ptr() == p0 && back.len() == len);
+            if i < len {
+                back[i] = x;
+            }
+        }
+        if i < len {
+            assert!(v[i] == x);
+        }
+        kani::cover!(len == 0);
+        kani::cover!(len > 1_000_000);
+    }
+    #[kani::proof]
+    #[kani::unwind(2)]
+    fn slice_mut_roundtrip_anylen_u8() { anylen_mut::<u8>(); }
+    #[kani::proof]
+    #[kani::unwind(2)]
+    fn slice_mut_roundtrip_anylen_u32() { anylen_mut::<u32>(); }
+
+    fn anylen_owned<T: Copy + PartialEq + Default>() {
+        let len: usize = kani::any();
+        kani::assume(len <= MAX_BYTES / core::mem::size_of::<T>());
+        let b: Box<[T]> = alloc::vec![T::default(); len].into_boxed_slice();
+        let p0 = b.as_ptr();
+        let mut o: DiplomatOwnedSlice<T> = b.into();
+        assert!(o.ptr as *const T == p0 && o.len == len);
+        assert!((&*o).as_ptr() == p0 && (&*o).len() == len);
+        assert!((&mut *o).as_ptr() == p0 && (&mut *o).len() == len);
+        if kani::any() {
+            let back: Box<[T]> = o.into();
+            assert!(back.as_ptr() == p0 && back.len() == len);
+            drop(back);
+        } else {
+            drop(o);
+        }
+        kani::cover!(len == 0);
+        kani::cover!(len > 1_000_000);
+    }
+    #[kani::proof]
+    #[kani::unwind(2)]
+    fn owned_roundtrip_anylen_u8() { anylen_owned::<u8>(); }
+    #[kani::proof]
+    #[kani::unwind(2)]
+    fn owned_roundtrip_anylen_u16() { anylen_owned::<u16>(); }
 }
